@@ -320,6 +320,16 @@ def run(repo, chk):
             chk.expect('yield' not in ops, 'C05.G3', f'stdlib:{stub}#no-output', 'no output may follow a fault', STDLIB)
 
     _typechecker_keeps_checks(repo, chk)
+    # a divisor narrowed before the division turns `b /= 256` into a division by zero (spurious fault): shared with C09.M6
+    chk.rule('C05.G7', 'no spurious division fault from compound assignment: the divisor of `x /= e`, `x %= e` is e, not e narrowed to the '
+                       'type of x (shared with C09.M6)')
+    if chk.__class__.__name__ == 'Check':
+        from . import c09
+        from ..report import Remap
+        c09._compound_width(repo, Remap(chk, {'C09.M6': 'C05.G7'}))
+        # the index / length that is checked is the value the expression denotes: an `is byte` cast hands on the low byte,
+        # also to the consumers that take the fast value (otherwise a valid index raises out_of_bounds) - shared with C09.M4
+        c09.run(repo, Remap(chk, {'C09.M4': lambda c: 'C05.G5' if c.startswith('eval_expr[IntToByte]') else None}))
     # ---------------- F1 preemptive flag -------------------------------------------------------------
     _preemptive(repo, chk, gf)
     # guard operands must still hold the values they were loaded with when the guard executes
